@@ -4,7 +4,7 @@ from .. import simprop
 ID = "C14"
 FAMILY = "C14"
 VARIANTS = ("asan",)
-BUDGET = {"quick": dict(examples=16000, seconds=60), "thorough": dict(examples=400000, seconds=540)}
+BUDGET = {"quick": dict(examples=80000, seconds=55), "thorough": dict(examples=2000000, seconds=540)}
 NONTRIVIAL = {'recording-rich-history', 'recording-several-windows'}
 PROFILES = [(4, 'recording'), (1, 'mixed')]
 RULE = ('Hypothesis-generated scenarios (profile recording 80%, mixed 20%): recorded resources / pools / buffers / queues with recording switched on and off at generated times and programs rich in indirect state changes (preemption, rollback, drops at end/stop, priority-queue cancel, several changes per instant). Oracle: per recording window the samples have non-decreasing times, start with (value at switch-on, switch-on time) and define the same step function as the end-of-instant values of the object; the time-weighted mean from cmb_timeseries_summarize equals the exact time average (Fraction arithmetic, rel. tol. 1e-12). Non-trivial = a history of >= 4 samples or several recording windows. distinct = SHA-1 of the scenario text.')
